@@ -128,20 +128,22 @@ TEXT = {
 EXTRA = {
     "C01": "; band oracle on saturated / one-hot predictions under a user epsilon (clipped, clipped+renormalised, as given); 1100..1500 x 32..48 matrices; thorough tier: the repository's own test-suite under the same contract",
     "C02": "; 1100..1500 x 32..48 matrices (n*K^2 > 2^20); thorough tier: the repository's own test-suite under the same contract",
-    "C04": "; float32 / Fortran-ordered / strided / read-only training data, NumPy-integer hyperparameters",
+    "C03": "; steps taken while a sparse model has a feature switched off (extra monitored steps; two continuation steps through the documented loop infer -> gemini -> _compute_grads -> _update_weights from such a state); three-scale arbitration in which the analytic value must be out of reach of every scale",
+    "C04": "; float32 / Fortran-ordered / strided / read-only training data (reference affinity on the layout the model saw), NumPy-integer hyperparameters",
+    "C06": "; redundant (twin) features with mini-batches and dynamic paths: discarded features that come back",
     "C05": "; thorough tier: the repository's own test-suite under the same contract",
-    "C07": "; steps told apart by the model's alpha (start-of-step score optional), initial score recomputed by the monitor at the end of the initial fit; model alphas of 1e-9..1e-15; under-trained initial fits followed by strong penalties",
+    "C07": "; steps told apart by the model's alpha (start-of-step score optional), initial score recomputed by the monitor at the end of the initial fit; model alphas of 1e-9..1e-15; under-trained initial fits followed by strong penalties; redundant (twin) features: paths whose feature count is not monotone",
     "C08": "; long fits (up to ~100 leaves, dozens of clusters): admissibility and real gain of every chosen split, score decomposition",
     "C09": "; long fits (up to ~100 leaves)",
     "C10": "; NumPy-integer batch sizes; an absent recorded-indices attribute is judged by its effect (C14)",
     "C12": "; sibling objects of the same class fitted on the same arrays inside histories; hyperparameters compared by value; a raising clone is a violation",
     "C13": "; 1100..1500 x 32..48 matrices; thorough tier: the repository's own test-suite under the same monitor",
-    "C14": "; an absent recorded-indices attribute is judged through the rows the constraint terms land on",
-    "C15": "; leaf memberships read through the public API (leaf_scores_ set to leaf indicators) at five temperatures; integer-typed query arrays",
+    "C14": "; must-link paths, cycles and trees of 3..40 samples with far-apart cannot-link pairs; an absent recorded-indices attribute is judged through the rows the constraint terms land on",
+    "C15": "; leaf memberships read through the public API (leaf_scores_ set to leaf indicators) at five temperatures; integer-typed query arrays; binary / ordinal / constant training columns",
     "C16": "; every in-domain value probed again after the out-of-domain ones, each right after an equal-valued twin of another type",
     "C17": "; scores of one row, copies of one row and a slice",
     "C19": "; trees of up to ~100 leaves",
-    "C20": "; covariances and Student scales in units of 1e-14..1e6",
+    "C20": "; covariances and Student scales in units of 1e-14..1e6; small draws from mixtures with rare components (every sample next to the mean its label names)",
 }
 
 TECH_DEFAULT = "runtime monitoring: contracts/invariants at hooked call sites over generated workloads"
